@@ -362,6 +362,25 @@ def runStreamCut (trk : Tracker) (me : Bytes) (evs : List Ev) (cut : Bytes → L
   let rr := readLoop trk (wire.length + 1) r0 ps
   ⟨w.1, rr.1, rr.2.broken, w.2.broken⟩
 
+/-! ### The listener's TargetReady path -/
+
+/-- `CrossNodeListener.handleConnection` → `handleTargetReady` → the raw forwarding of `runBridgeForward`,
+on the inbound bytes of an accepted connection; `bridge` = the tunnel the manager has a bridge for.
+`some bytes`: everything after the first frame is forwarded raw to the bridge's source side;
+`none`: nothing is forwarded (read error, other frame type, malformed message, unknown bridge). -/
+def runListener (bridge : Bytes) (s : Src) : Option Bytes :=
+  match (readFrame s).out with
+  | .fail _ => none
+  | .frame f =>
+    if f.ty == crossnode.FrameTypeTargetReady then
+      match decodeTargetReady f.data with
+      | none => none
+      | some m =>
+        -- tunnelIDStr := TunnelIDToString(tunnelID); if fullTunnelID != "" { tunnelIDStr = fullTunnelID }
+        if (if m.1.isEmpty then tunnelIDToString f.id else m.1) == bridge then some (readFrame s).rest.flat
+        else none
+    else none
+
 /-! ### Both directions of one connection (request / response) -/
 
 /-- Forward phase as in `runStream`, then the reverse phase on the SAME two stream objects. -/
